@@ -19,7 +19,7 @@ func init() {
 			"1..3 clients strictly one operation at a time: Add (0..4 attributes, 1..3 values), Modify of user entries (add-value on new and existing attributes, delete-attribute - bare, or spelling out all the values the attribute has -, replace of an existing attribute, several " +
 			"changes per request - now and then none at all -, multi-valued), Add and Delete of 4 further DNs below the groups base (cn=h<a..d>,ou=groups,..., read back by a search based at the entry's own DN), values of 127..70000 bytes now and then, Delete (users and groups, present and missing), Search (people base with (cn=X); base = entry DN; groups base), SetUsers/SetGroups (model reset with fresh objects, or with entries built by the library's own NewUsers(WithMembersOf) helper, which shares one memberOf slice between all users), and searches with unusual parameters (typesOnly, limits, attribute lists) whose results are not asserted but which must not change the store. " +
 			"A reference model (DN -> attribute -> values) is stepped alongside; after every mutating step the affected entry and one other pool entry are searched and compared, and at the end of each history every pool DN. " +
-			"Values added through add-value modifications may read back plain or BER-wrapped (a well-formed octet string, judged by the harness's own parser); values set through Add, Set* and replace must read back plainly. The user pool has two DNs with a shared parenthesised remark and one written with a blank after its first comma, the group pool one DN outside the groups base; an attribute returned twice in one entry is a violation. distinct_nontrivial = distinct operation-kind sequences (histories) containing at least one mutation followed by a search",
+			"Values added through add-value modifications may read back plain or BER-wrapped (a well-formed octet string, judged by the harness's own parser); values set through Add, Set* and replace must read back plainly. The user pool has two DNs with a shared parenthesised remark and one written with a blank after its first comma, the group pool one DN outside the groups base; an attribute returned twice in one entry is a violation; 30% of the people searches write their base in another case; fill-and-drain histories begin by deleting a group while there is no user. distinct_nontrivial = distinct operation-kind sequences (histories) containing at least one mutation followed by a search",
 		Assume: []string{"not asserted (the statement is silent): modify of group entries, add of a DN that exists as a group, replace of a missing attribute, the result code of an empty search, attribute order within an entry"},
 		Phases: func(tier string, seed int64) []Phase {
 			return []Phase{{Name: "histories-plain", Run: func(c *Ctx) { c20Run(c, "plain") }}, {Name: "histories-tls", Run: func(c *Ctx) { c20Run(c, "tls") }}}
